@@ -391,6 +391,40 @@ namespace
     }
   }
 
+  // sparse vectors with a history: filled through the element setter with more insertions than the growth increment
+  // (re-allocations; the same index written several times), and written - stream and serialize() - before anything has read
+  // the vector, i.e. while its lazy sort is still pending. The written images are compared with the content the vector shows
+  // afterwards (so a defect of the setter itself, which is not a persistence matter, cannot raise an alarm here).
+  template<typename V_, typename Put_>
+  void sparse_history(Gen& g, const char* what, FileMode fmode, Put_ put)
+  {
+    const bool large = g.idx(40) == 0;
+    const Index n = large ? Index(1100 + g.idx(1500)) : Index(3 + g.idx(30));
+    const Index nins = large ? Index(1001 + g.idx(1200)) : Index(1 + g.idx(3 * n));
+    V_ v(n);
+    for(Index k = 0; k < nins; ++k) put(v, large ? Index(g.idx(n)) : Index(g.idx(n)), g);
+    Bytes file;
+    {
+      simfs::SimStreamBuf sb(file, 64, true);
+      std::ostream os(&sb);
+      v.write_out(fmode, os);
+      os.flush();
+    }
+    std::vector<char> buf = v.serialize(LAFEM::SerialConfig(false, false));
+    const Snapshot ref = snap(v);   // only now: reading sorts the vector
+    V_ back1, back2;
+    {
+      simfs::SimStreamBuf sb(file, 64, true);
+      std::istream is(&sb);
+      back1.read_from(fmode, is);
+    }
+    back2.deserialize(buf);
+    compare(ref, snap(back1), false, std::string(what) + " written after " + std::to_string(nins) + " insertions into a vector of length " + std::to_string(n) + " (no read access before the write)");
+    compare(ref, snap(back2), false, std::string(what) + " serialized after " + std::to_string(nins) + " insertions into a vector of length " + std::to_string(n) + " (no read access before)");
+    CNT.roundtrips += 2; CNT.binary += 2;
+    sim::probe(large ? "sparse_vector_grown_beyond_1000_entries" : "sparse_vector_written_with_pending_sort");
+  }
+
   // symmetric MatrixMarket files: only the lower triangle is stored, the reader mirrors it
   template<typename DT_, typename IT_>
   void symmetric_mtx_roundtrip(Gen& g, const Shape& sh, size_t wchunk, size_t rchunk, bool vary)
@@ -523,14 +557,20 @@ namespace
     {
     case 0: exercise<DenseVector<DT_, IT_>>("DenseVector", make_dv<DT_, IT_>, {exp, mtx, {FileMode::fm_dv, false, "fm_dv"}, bin}, g, sh); break;
     case 1: exercise<DenseVectorBlocked<DT_, IT_, 3>>("DenseVectorBlocked3", make_dvb<DT_, IT_>, {exp, mtx, {FileMode::fm_dvb, false, "fm_dvb"}, bin}, g, sh); break;
-    case 2: exercise<SparseVector<DT_, IT_>>("SparseVector", make_sv<DT_, IT_>, {mtx, {FileMode::fm_sv, false, "fm_sv"}, bin}, g, sh); break;
+    case 2: exercise<SparseVector<DT_, IT_>>("SparseVector", make_sv<DT_, IT_>, {mtx, {FileMode::fm_sv, false, "fm_sv"}, bin}, g, sh);
+      if(g.idx(2) == 0) sparse_history<SparseVector<DT_, IT_>>(g, "SparseVector", g.idx(2) == 0 ? FileMode::fm_sv : FileMode::fm_binary,
+        [](SparseVector<DT_, IT_>& v, Index i, Gen& gg) { v(i, DT_(gg.val())); });
+      break;
     case 3: exercise<DenseMatrix<DT_, IT_>>("DenseMatrix", make_dm<DT_, IT_>, {mtx, {FileMode::fm_dm, false, "fm_dm"}, bin}, g, sh); break;
     case 4: exercise<SparseMatrixCSR<DT_, IT_>>("SparseMatrixCSR", make_csr<DT_, IT_>, {mtx, {FileMode::fm_csr, false, "fm_csr"}, bin}, g, sh);
       if(g.idx(3) == 0) symmetric_mtx_roundtrip<DT_, IT_>(g, sh, 64, 64, true);
       break;
     case 5: exercise<SparseMatrixBCSR<DT_, IT_, 2, 3>>("SparseMatrixBCSR2x3", make_bcsr<DT_, IT_>, {{FileMode::fm_bcsr, false, "fm_bcsr"}, bin}, g, sh); break;
     case 6: exercise<SparseMatrixBanded<DT_, IT_>>("SparseMatrixBanded", make_banded<DT_, IT_>, {{FileMode::fm_bm, false, "fm_bm"}, bin}, g, sh); break;
-    case 8: exercise<SparseVectorBlocked<DT_, IT_, 2>>("SparseVectorBlocked2", make_svb<DT_, IT_>, {{FileMode::fm_svb, false, "fm_svb"}, bin}, g, sh); break;
+    case 8: exercise<SparseVectorBlocked<DT_, IT_, 2>>("SparseVectorBlocked2", make_svb<DT_, IT_>, {{FileMode::fm_svb, false, "fm_svb"}, bin}, g, sh);
+      if(g.idx(2) == 0) sparse_history<SparseVectorBlocked<DT_, IT_, 2>>(g, "SparseVectorBlocked", g.idx(2) == 0 ? FileMode::fm_svb : FileMode::fm_binary,
+        [](SparseVectorBlocked<DT_, IT_, 2>& v, Index i, Gen& gg) { Tiny::Vector<DT_, 2> t; t[0] = DT_(gg.val()); t[1] = DT_(gg.val()); v(i, t); });
+      break;
     case 7: exercise<SparseMatrixCSCR<DT_, IT_>>("SparseMatrixCSCR", make_cscr<DT_, IT_>, {{FileMode::fm_cscr, false, "fm_cscr"}, bin}, g, sh); break;
     }
   }
